@@ -224,6 +224,11 @@ func runC14(c *Ctx) {
 			if inScope[enc.Key()] {
 				continue // covered above, with the exact counting rule
 			}
+			if (enc.Table == ref.TDD || enc.Table == ref.TFD) && (enc.Op == 0xdd || enc.Op == 0xfd || enc.Op == 0xed) {
+				// a prefix followed by another prefix: on silicon the last one wins, so
+				// DD ED 4F is LD R,A — no verdict for prefix chains
+				continue
+			}
 			for r0 := 0; r0 < 256; r0 += 3 {
 				sc := MakeStepCase(enc, r, r0)
 				sc.Pre.IR.Lo = uint8(r0)
